@@ -119,6 +119,7 @@ type Faults struct {
 	Tick         bool
 	CloseErr     bool
 	ReadStall    bool // after a partial delivery the next read with a deadline expires first
+	Damage       int  // crash events damage up to this many records of the snapshot
 	BrokerResend bool // the broker retransmits an unacknowledged PUBLISH / repeats PUBREL on the same connection
 	Allow        func(w *World, kind string) bool
 }
@@ -192,6 +193,7 @@ type World struct {
 	nDial      int
 	crashSnaps []crashSnap
 	deliveries []*Delivery
+	damaged     []damage
 	hostileSent bool
 	hostileIdx  int
 }
@@ -661,7 +663,21 @@ func (w *World) menu() []alt {
 		}
 	}
 	if f.Crash && w.gen < len(w.scn.Gens) && w.allow("crash") {
-		menu = append(menu, alt{label: "crash", cost: Cost{C: 1}, do: w.crash})
+		if f.Damage == 0 {
+			menu = append(menu, alt{label: "crash", cost: Cost{C: 1}, do: func() { w.crash(nil) }})
+		} else {
+			ds := w.damages()
+			for i, d := range ds {
+				menu = append(menu, alt{label: "crash+" + d.label, cost: Cost{C: 1}, do: func() { w.crash([]damage{d}) }})
+				if f.Damage >= 2 {
+					for _, d2 := range ds[i+1:] {
+						if d2.key != d.key {
+							menu = append(menu, alt{label: "crash+" + d.label + "+" + d2.label, cost: Cost{C: 1, F: 1}, do: func() { w.crash([]damage{d, d2}) }})
+						}
+					}
+				}
+			}
+		}
 	}
 	return menu
 }
@@ -778,9 +794,52 @@ func (w *World) newClient(adopt bool) error {
 
 // crash stops the current generation at this instant and adopts the session
 // from a copy of the store.
-func (w *World) crash() {
+type damage struct {
+	label string
+	key   uint
+	kind  string
+	apply func(m map[uint][]byte)
+}
+
+// damages lists the single-record damages applicable to the current store.
+func (w *World) damages() []damage {
+	var out []damage
+	for _, k := range w.store.keys() {
+		v := w.store.m[k]
+		add := func(kind string, f func(m map[uint][]byte)) {
+			out = append(out, damage{label: fmt.Sprintf("%s(%#x)", kind, k), key: k, kind: kind, apply: f})
+		}
+		flip := func(pos int) func(m map[uint][]byte) {
+			return func(m map[uint][]byte) {
+				b := clone(m[k])
+				b[pos] ^= 0x21
+				m[k] = b
+			}
+		}
+		if len(v) >= 12 {
+			if len(v) > 12 {
+				add("flip-packet", flip(0))
+			}
+			add("flip-seq", flip(len(v)-12))
+			add("flip-sum", flip(len(v)-1))
+			add("trunc11", func(m map[uint][]byte) { m[k] = clone(m[k][:11]) })
+			add("trunc-1", func(m map[uint][]byte) { m[k] = clone(m[k][:len(m[k])-1]) })
+		}
+		add("remove", func(m map[uint][]byte) { delete(m, k) })
+	}
+	out = append(out, damage{label: "stray(0x9abc)", key: 0x9abc, kind: "stray", apply: func(m map[uint][]byte) { m[0x9abc] = []byte("garbage-under-an-unused-key") }})
+	out = append(out, damage{label: "stray(0x1beef)", key: 0x1beef, kind: "stray", apply: func(m map[uint][]byte) { m[0x1beef] = []byte("short") }})
+	return out
+}
+
+func (w *World) crash(dmg []damage) {
 	w.ev(Event{K: "crash"})
 	snap := w.store.copy(w)
+	for _, d := range dmg {
+		d.apply(snap.m)
+		w.ev(Event{K: "damage", N: int(d.key), S: d.kind})
+		w.damaged = append(w.damaged, d)
+	}
 	w.crashSnaps = append(w.crashSnaps, crashSnap{step: w.step, gen: w.gen, logIdx: len(w.log), store: w.store.copy(w).m})
 	old := w.client
 	// drain the old generation: its goroutines run free against dead
@@ -814,7 +873,11 @@ func (w *World) crash() {
 	w.xchsGen()
 	w.curT = nil
 	if err := w.newClient(true); err != nil {
-		w.Violate("C02", "adopt-fatal", "AdoptSession failed after crash at step %d: %v", w.step, err)
+		prop := "C02"
+		if len(dmg) > 0 {
+			prop = "C16"
+		}
+		w.Violate(prop, "adopt-fatal", "AdoptSession failed after crash at step %d: %v", w.step, err)
 		w.client = nil
 		return
 	}
